@@ -4,6 +4,7 @@ import NGF.Model.StatusJudge
 import NGF.Model.HandlerStatus
 import NGF.Model.PolicyAttach
 import NGF.Model.PipelineStatusTie
+import NGF.Model.PipelineStatusTlsTie
 import NGF.Model.Proto
 /-
 Driver entry for C07. Every input line is one JSON object written by harness/c07 (see run.go):
@@ -440,6 +441,34 @@ def fragmentLine (line : String) : String :=
       | _, _, .error e, _ => "bad-op objs: " ++ e
       | _, _, _, .error e => "bad-op reloadErr: " ++ e
 
+/-- `tls`: lines with "flat" and "secrets": `PipelineTlsTie.toFragmentT` gives the `ScenarioT`; `PipelineStatusTls` against "st":
+`skip` | `out <why>` | `ok <stats>` | `diff <stats> ## <what>` -/
+def tlsLine (line : String) : String :=
+  match Json.parse line with
+  | .error e => "bad-op " ++ e
+  | .ok j =>
+    match optField j "flat", optField j "secrets" with
+    | some fj, some _ =>
+      if (optField j "panic").isSome then "skip" else
+      let secrets : Except String (List NGF.Tls.SecretObj) := do
+        (← reqArr j "secrets").mapM fun x => do
+          pure { ns := (← reqStr x "ns").toList, name := (← reqStr x "name").toList, isTLS := (← reqStr x "type") == "kubernetes.io/tls",
+                 pairOK := ← reqBool x "pairOK", cert := (← reqStr x "cert").toList, key := (← reqStr x "key").toList }
+      match Flat.dScenario fj, secrets, pPrepared j, pGens j, reqBool j "reloadErr" with
+      | .ok flat, .ok secs, .ok real, .ok gens, .ok rerr =>
+        match NGF.PipelineTlsTie.toFragmentT flat secs with
+        | .error why => "out " ++ why
+        | .ok fs =>
+          if !NGF.PipelineTls.inFragmentT fs then "out inFragmentT" else
+          if !NGF.PipelineStatus.statusOK (NGF.PipelineTls.allPart fs) then "out statusOK" else
+          (NGF.PipelineStatusTlsTie.compareT fs rerr gens real).render
+      | .error e, _, _, _, _ => "bad-op flat: " ++ e
+      | _, .error e, _, _, _ => "bad-op secrets: " ++ e
+      | _, _, .error e, _, _ => "bad-op st: " ++ e
+      | _, _, _, .error e, _ => "bad-op objs: " ++ e
+      | _, _, _, _, .error e => "bad-op reloadErr: " ++ e
+    | _, _ => "skip"
+
 def driver (args : List String) : IO UInt32 := do
   let stdin ← IO.getStdin
   let stdout ← IO.getStdout
@@ -447,7 +476,8 @@ def driver (args : List String) : IO UInt32 := do
   | ["model"] => NGF.Proto.forEachLine stdin fun l => stdout.putStrLn (modelLine l)
   | ["judge"] => NGF.Proto.forEachLine stdin fun l => stdout.putStrLn (judgeLine l)
   | ["fragment"] => NGF.Proto.forEachLine stdin fun l => stdout.putStrLn (fragmentLine l)
-  | _ => IO.eprintln "usage: C07 model|judge|fragment"; return 2
+  | ["tls"] => NGF.Proto.forEachLine stdin fun l => stdout.putStrLn (tlsLine l)
+  | _ => IO.eprintln "usage: C07 model|judge|fragment|tls"; return 2
   return 0
 
 end NGF.C07
